@@ -596,6 +596,11 @@ func runConformance(l *Loaded, eo EntryOpts, rc RunConfig, lc LoadConfig, k int,
 		v := &Violation{Entry: eo.Name, Property: eo.Property, Label: "conformance", Kind: "conformance", Inputs: run.Inputs, Sched: run.Sched, Multi: run.Multi}
 		writeCounterexample(dir, v, &entryResult{Opts: eo}, lc, rtNative, nativeExtra, l)
 		nat, nerr := nativeTrace(dir, lc)
+		for try := 0; run.Multi && try < 3 && (nerr != "" || strings.Join(nat, "\n") != strings.Join(run.Trace, "\n")); try++ {
+			// which ready case a real select takes, and timing inside the runtime's own primitives,
+			// are not fixed by the recorded schedule: a concurrent run gets a few more attempts
+			nat, nerr = nativeTrace(dir, lc)
+		}
 		if nerr != "" {
 			bad++
 			msgs = append(msgs, fmt.Sprintf("conformance run %d of %s: native run failed: %s (dir %s)", i, eo.Name, nerr, dir))
